@@ -210,7 +210,7 @@ def run_rest(model, col, tier, G, D):
     sub = Collector("C02")
     c02.run(model, sub, "quick")
     for ob in sub.obligations:
-        if ob.rule in ("R02.2", "R02.3", "R02.7", "R02.8", "R02.9"):
+        if ob.rule in ("R02.2", "R02.3", "R02.7", "R02.8", "R02.9") or (ob.rule == "R02.4" and "builds no instructions" in ob.construct):
             # R02.7: a forwarded load is replaced by the operand of the store *directly before it in its block* (anything else can be
             # defined later / on another path: use before definition); R02.9: a pass object that remembers values of an earlier
             # function hands out operands that are not values of this function
